@@ -25,7 +25,7 @@ ChunkRels == {"smaller", "equal", "larger"}
 Lens == {"zero", "one", "many", "large"}
 StrKinds == {"fixed", "vlen"}
 Tasks == {"compress", "repack", "repack-strip-logs", "repack-strip-basins",
-          "condense", "condense-no-ancillary"}
+          "condense", "condense-no-ancillary", "condense-no-basin-features"}
 
 Descr == [storage : Storages, filter : Filters, chunk : ChunkRels, len : Lens,
           str : StrKinds]
@@ -56,8 +56,10 @@ Preserves(route, d) == route # "skipped" \/ d.len = "zero"
 \*     2.0.6) - the dataset exposes the recomputed feature instead
 \*   unknown-feature: an extra dataset under /events with an undefined name
 \*   mapped-basin: a file basin with twice the events and a mapping feature
+\*   nonscalar-internal-basin: an internal basin that offers only an
+\*     image-shaped feature, whose definition precedes the file basin's
 Extras == {"plain", "defective-time", "defective-aspect", "unknown-feature",
-           "mapped-basin"}
+           "mapped-basin", "nonscalar-internal-basin"}
 \* stored datasets the copy need not carry over (the dataset-level features
 \* must agree all the same)
 NotCarried(x) == CASE x = "defective-time" -> {"time"}
